@@ -55,7 +55,7 @@ def make(cfg):
             g = []
             for i, s in enumerate(origs):
                 present = True
-                if cfg.get("presence") == "symbolic":
+                if cfg.get("presence") == "symbolic" and (cfg.get("presence_params") is None or i in cfg["presence_params"]):
                     present = bool(symx.symbool(f"present_p{i}_s{k}"))
                 g.append(H.arr_var(f"g{k}p{i}", s).reshape(-1) if present else None)
             grads_all.append(g)
@@ -180,13 +180,16 @@ def jobs_for(tier):
     # HSDP: replicate x shard mesh, blocks distributed over the replicate group
     add([(2, 4), (3,)], even_cuts([(2, 4), (3,)], 2, offsets=[[5], [2]]), hsdp=dict(replicate=2, group=-1), graft=None, fixed=dict(mom=0, wd=0))
     add([(2, 4), (3,)], even_cuts([(2, 4), (3,)], 1), hsdp=dict(replicate=2, group=2, communicate_params=True), graft="sgd", fixed=dict(mom=0))
+    # HSDP with a gradient that comes and goes for a block owned by ONE replica rank while every rank keeps other gradients
+    add([(2, 4), (3,), (2,)], even_cuts([(2, 4), (3,), (2,)], 1), hsdp=dict(replicate=2, group=2), presence="symbolic", presence_params=[2], T=3, graft=None,
+        fixed=dict(mom=0, wd=0, b1=0), merge=False)
     if tier == "thorough":
         for off in range(1, 12):
             add(S34, even_cuts(S34, 2, offsets=[[off]]), graft=None, fixed=dict(mom=0, wd=0))
         add([(2, 2, 3)], even_cuts([(2, 2, 3)], 3, offsets=[[2, 9]]), graft="adam")
         add([(2, 1, 2, 2)], even_cuts([(2, 1, 2, 2)], 2, offsets=[[3]]), graft="rmsprop", fixed=dict(mom=0))
         add([(4, 3)], even_cuts([(4, 3)], 4, offsets=[[2, 6, 7]]), graft=None, fixed=dict(mom=0, wd=0))
-        add([(2, 4), (3,)], even_cuts([(2, 4), (3,)], 2, offsets=[[3], [1]]), hsdp=dict(replicate=3, group=3), graft=None, fixed=dict(mom=0, wd=0))
+        add([(4, 4), (3,)], even_cuts([(4, 4), (3,)], 2, offsets=[[8], [1]]), hsdp=dict(replicate=3, group=3), graft=None, fixed=dict(mom=0, wd=0))  # >= 3 blocks per shard rank
     return jobs
 
 
